@@ -4,7 +4,7 @@ from __future__ import annotations
 import ast
 import z3
 
-from .values import (Unsupported, EnumVal, SEnum, SSet, GList, SStr, SObj, ExcVal, BuiltinExcClass, Closure, NativeFn, XList,
+from .values import (Unsupported, EnumVal, SEnum, SSet, GList, SStr, SObj, ExcVal, BuiltinExcClass, Closure, NativeFn, XList, Spread,
                      BoundMethod, str_concat, str_len, str_map_chars, str_count, nonneg, to_z3_string)
 from .source import ClassInfo, FuncInfo
 
@@ -29,8 +29,11 @@ def call_builtin(I, name, args, kwargs, env):
         if isinstance(x, SSeq):
             return I.pipes.observable(x, 'len')
         if isinstance(x, XList):
-            base = I.pipes.observable(x.base, 'len') if x.base is not None else 0
-            return simp(zint(base) + len(x.items)) if not isinstance(base, int) else base + len(x.items)
+            total = 0
+            for kind, seg in x.segments():
+                n = I.pipes.observable(seg, 'len') if kind == 'pipe' else len(seg)
+                total = (total + n) if isinstance(total, int) and isinstance(n, int) else simp(zint(total) + zint(n))
+            return total
         if isinstance(x, SObj):
             m = x.cls.find_method('__len__')
             if m is not None:
@@ -68,7 +71,9 @@ def call_builtin(I, name, args, kwargs, env):
         if isinstance(x, GList):
             return x
         if isinstance(x, SSeq):
-            return x
+            return x.with_stage('filter', lambda v: True)      # a new list object with the same elements (`is` must not hold)
+        if isinstance(x, XList):
+            return XList(x.base, x.items, False)
         if isinstance(x, SStr) and not x.is_concrete():
             return x        # the character list of a run-length string (consumed by [0], ''.join, len)
         return list(I.iterate(x))
@@ -86,6 +91,13 @@ def call_builtin(I, name, args, kwargs, env):
         raise Unsupported('dict()')
     if name in ('any', 'all'):
         (x,) = args
+        if isinstance(x, XList) and (x.base is not None or x.has_spread()):
+            acc = (name == 'all')
+            for kind, seg in x.segments():
+                parts = [call_builtin(I, name, [seg], {}, env)] if kind == 'pipe' else [I.truth(v) for v in seg]
+                for t in parts:
+                    acc = _and(acc, t) if name == 'all' else _or(acc, t)
+            return acc
         if isinstance(x, SSeq):
             # over a symbolic sequence: any = some element is true (the filtered pipe is not empty); all = no element is false
             from .loops import _pointwise
@@ -165,6 +177,8 @@ def call_builtin(I, name, args, kwargs, env):
     if name == 'enumerate':
         x = args[0]
         start = args[1] if len(args) > 1 else kwargs.get('start', 0)
+        if isinstance(x, XList) and x.base is not None and not x.items:
+            x = x.base
         if isinstance(x, SSeq):
             return I.loops.seq_enumerate(I, x, start)
         return [(i + start, v) for i, v in enumerate(I.iterate(x))]
@@ -322,16 +336,29 @@ def call_method(I, recv, name, args, kwargs):
     from .seq import SSeq
     if isinstance(recv, XList):
         if name == 'append':
+            if I.recording is not None:
+                # inside the per-element evaluation of an effect loop: the append is recorded, the loop rule splices the whole
+                # sequence of appended values in afterwards
+                I.recording.append((recv, args[0], True))
+                return None
             I.note_write(recv, 'list.append')
             recv.items.append(args[0])
             return None
+        if I.recording is not None:
+            raise Unsupported(f'list.{name} inside a loop over a symbolic sequence')
         if name == 'extend':
             I.note_write(recv, 'list.extend')
-            recv.items.extend(I.iterate(args[0]))
+            a = args[0]
+            if isinstance(a, SSeq):
+                recv.items.append(Spread(a))
+            elif isinstance(a, XList):
+                recv.items.extend(([Spread(a.base)] if a.base is not None else []) + list(a.items))
+            else:
+                recv.items.extend(I.iterate(a))
             return None
         if name == 'copy':
             return XList(recv.base, recv.items, False)
-        if name == 'pop' and not args and recv.items:
+        if name == 'pop' and not args and recv.items and not isinstance(recv.items[-1], Spread):
             I.note_write(recv, 'list.pop')
             return recv.items.pop()
         raise Unsupported(f'method {name} on a symbolic list')
@@ -340,6 +367,11 @@ def call_method(I, recv, name, args, kwargs):
     if isinstance(recv, (str, SStr)):
         return str_method(I, recv, name, args, kwargs)
     if isinstance(recv, list):
+        if I.recording is not None and name in ('append', 'extend', 'insert', 'pop', 'remove', 'clear', 'sort', 'reverse') \
+                and id(recv) not in I.body_lists:
+            # a list that exists outside the loop body would be changed once per element: only lists under the effect-loop rule
+            # (turned into symbolic lists before the body runs) may be appended to
+            raise Unsupported(f'list.{name} on an outer list inside a loop over a symbolic sequence')
         if name == 'append':
             I.note_write(recv, 'list.append')
             recv.append(args[0])
